@@ -1,0 +1,7 @@
+//! Verification hooks (`--features verif_hooks`).
+//!
+//! Thin wrappers that give the external verification harness access to
+//! crate-private code. Nothing here changes the behavior of the crate.
+#![allow(missing_docs, dead_code, unreachable_pub, clippy::all)]
+
+pub mod pure;
